@@ -88,6 +88,14 @@ def check_term(ctx, c):
                 out.append(("term:imaginary-accepted:%s" % ("neg" if im < 0 else "pos"), "term %s with coefficient %s was accepted (imaginary part silently truncated)" % (ops, complex(1.0, im))))
             except Exception:  # any exception is a rejection; what must not happen is a circuit coming back
                 pass
+        # an imaginary part that is small only RELATIVE to a large real part (0.01 next to 2000) still changes the evolution
+        # (a factor e^{+-0.01 t} on the amplitudes): it is not negligible, and the term must not be accepted
+        for coef in (complex(2000.0, 0.01), complex(-2000.0, -0.01), complex(1e5, 0.5)):
+            try:
+                time_evolution_for_term(real_term(ops, coef), 0.3)
+                out.append(("term:imaginary-accepted:relative", "term %s with coefficient %s was accepted (imaginary part silently truncated)" % (ops, coef)))
+            except Exception:
+                pass
         # the same through a sum (the term sits between two ordinary terms), also for purely imaginary coefficients
         from orquestra.quantum.evolution import time_evolution, time_evolution_derivatives
         from orquestra.quantum.operators import PauliSum, PauliTerm
